@@ -139,10 +139,6 @@ class BaseStorer(ABC):
         if type(self) is not type(other):
             raise TypeError("Can only add objects of the same class")
 
-        combined_particle_list: list = (
-            self.particle_list_ + other.particle_list_
-        )
-
         # Ensure num_output_per_event_ is not None
         if self.num_output_per_event_ is None:
             self.num_output_per_event_ = np.empty((0, 2), dtype=int)
@@ -153,9 +149,18 @@ class BaseStorer(ABC):
         if other.num_events_ is None:
             other.num_events_ = 0
 
+        # An object without events holds the placeholder [[]] and an empty
+        # array: it contributes neither events nor rows
+        combined_particle_list: list = (
+            self.particle_list_ if self.num_events_ > 0 else []
+        ) + (other.particle_list_ if other.num_events_ > 0 else [])
+
         combined_num_output_per_event: np.ndarray = np.concatenate(
-            (self.num_output_per_event_, other.num_output_per_event_)
-        )
+            (
+                self.num_output_per_event_.reshape(-1, 2),
+                other.num_output_per_event_.reshape(-1, 2),
+            )
+        ).astype(int)
 
         # Adjust event_number for the parts that originally belonged to other
         combined_num_output_per_event[self.num_events_ :, 0] += self.num_events_
@@ -274,6 +279,9 @@ class BaseStorer(ABC):
             raise ValueError("particle_list_ is not set")
         if num_events is None:
             raise ValueError("num_events_ is not set")
+
+        if num_events == 0:
+            return []
 
         if num_events == 1:
             num_particles = self.num_output_per_event_[0][1]
@@ -849,7 +857,10 @@ class BaseStorer(ABC):
             raise ValueError("num_output_per_event_ is not set")
         if self.particle_list_ is None:
             raise ValueError("particle_list_ is not set")
-        if self.num_output_per_event_.ndim == 1:
+        if self.num_output_per_event_.size == 0:
+            # No events are held (and a filter cannot add one): nothing to count
+            pass
+        elif self.num_output_per_event_.ndim == 1:
             # Handle the case where num_output_per_event_ is a one-dimensional array
             self.num_output_per_event_[1] = len(self.particle_list_[0])
         elif self.num_output_per_event_.ndim == 2:
